@@ -42,6 +42,8 @@ typedef struct { cmethod data[NM]; size_t n; } vec_method;
 vec_method methods;
 #define NKEY 16
 cclass *class_map_slots[NKEY];
+typedef struct cclass class_;
+static cclass **yv_map_find(type_id key) { __CPROVER_assert(key < NKEY, "harness: key range"); __CPROVER_assume(key < NKEY); return class_map_slots[key] ? &class_map_slots[key] : (cclass **)0; }   /* unordered_map::find: absent (or null) entry = end() */
 static cclass **yv_map_at(type_id key) { __CPROVER_assert(key < NKEY, "harness: key range"); __CPROVER_assume(key < NKEY); return &class_map_slots[key]; }
 #define YV_TYPE_INDEX(t) ((t) & 15)       /* ids below 16 are their own index; id + 16 is a second id of the same class */
 static void cp_push(vec_classp *v, cclass *c) { __CPROVER_assert(v->n < MAXAR, "harness: arity capacity"); __CPROVER_assume(v->n < MAXAR); v->data[v->n++] = c; }
@@ -52,6 +54,7 @@ static void policy_error_unknown_class(const unknown_class_error *e) { ++g_err_c
 #define yv_abort() do { __CPROVER_assert(CFG_UNKNOWN != 0 && g_err_calls == 1 && g_err_type == CFG_UNKNOWN, \
     "C15 an unregistered parameter class is reported once as unknown_class_error with its id before aborting (and only then)"); __CPROVER_assume(0); } while (0)
 
+@LIFTED@
 static void augment_methods(void)
 {
 @BODY@
@@ -140,8 +143,46 @@ def ptr_range_loops(ex, body):
     return body
 
 
+def lift_lambdas(ex, body):
+    """A local `auto f = [&](params) { ... };` becomes a file-scope function; the locals declared before it that it captures become
+    file-scope variables assigned at the place of their declaration (the enclosing function is not re-entered)."""
+    rx = re.compile(r'\bauto\s+(\w+)\s*=\s*\[&\]\s*\(([^)]*)\)\s*\{')
+    lifted = []
+    n = 0
+    while True:
+        m = rx.search(body)
+        if not m:
+            break
+        ob = m.end() - 1
+        cb = X.match_close(body, ob)
+        lam = body[ob + 1:cb]
+        rest = body[cb + 1:]
+        if not rest.lstrip().startswith(';'):
+            raise X.ExtractionBroken('lambda %s is not a plain local definition' % m.group(1))
+        rest = rest.lstrip()[1:]
+        before = body[:m.start()]
+        globs = []
+
+        def hoist(dm):
+            ty, name, init = dm.group(1).strip(), dm.group(2), dm.group(3)
+            if ty in ('auto', 'return') or not re.search(r'\b%s\b' % re.escape(name), lam):
+                return dm.group(0)
+            globs.append('%s %s;' % (ty, name))
+            return '%s = %s;' % (name, init)
+        before = re.sub(r'(?m)^[ \t]*((?:const\s+)?[\w:]+(?:\s*\*)?)\s+(\w+)\s*=\s*([^;{}]+);', hoist, before)
+        rm = re.search(r'\breturn\s+([^;]+);', lam)
+        ret = '__typeof__(%s)' % rm.group(1).strip() if rm else 'void'
+        lifted.append('\n'.join(globs) + '\nstatic %s %s(%s)\n{%s}\n' % (ret, m.group(1), m.group(2), lam))
+        body = before + rest
+        n += 1
+    ex.rules_fired.append(('local [&] lambda lifted to a file-scope function, captured locals to file scope', n))
+    ex.lifted = 'YV_LIFT_BEGIN\n' + '\n'.join(lifted) + '\nYV_LIFT_END\n' if lifted else ''
+    return ex.lifted + body
+
+
 RULES = [
     X.drop_trace,
+    lift_lambdas,
     X.Rule('using namespace', r'\busing\s+namespace\s+[\w:]+\s*;', ''),
     X.eval_if_constexpr(lambda c: {'has_facet<Policy,error_handler>': True, 'trace_enabled': False}.get(re.sub(r'\s+', '', c))),
     X.Rule('methods.resize(Policy::methods.size())', r'\bmethods\.resize\(Policy::methods\.size\(\)\);',
@@ -155,7 +196,10 @@ RULES = [
     X.Rule('specs.resize(n)', r'\b(meth_iter->specs)\.resize\(([^;]+)\);', r'__CPROVER_assert(\2 <= NSPEC, "harness: definitions capacity"); \1.n = \2; for (size_t yv_d = 0; yv_d < NSPEC; ++yv_d) \1.data[yv_d].vp.n = 0;', 1, 1),
     X.Rule('x.arity()', r'\b(\w+)\.arity\(\)', r'METHOD_ARITY(\1)'),
     X.Rule('Policy::type_index', r'Policy::type_index\(', 'YV_TYPE_INDEX('),
-    X.Rule('class_map[key]', r'\bclass_map\[((?:[^\[\]]|\[[^\]]*\])*)\]', r'(*yv_map_at(\1))', 2, 2),
+    X.Rule('class_map[key]', r'\bclass_map\[((?:[^\[\]]|\[[^\]]*\])*)\]', r'(*yv_map_at(\1))'),
+    X.Rule('auto it = class_map.find(key)', r'\bauto\s+(\w+)\s*=\s*class_map\.find\(((?:[^()]|\([^()]*\))*)\);', r'cclass **\1 = yv_map_find(\2);'),
+    X.Rule('it != class_map.end()', r'\b(\w+)\s*([!=]=)\s*class_map\.end\(\)', r'\1 \2 0'),
+    X.Rule('it->second', r'\b(\w+)->second\b', r'(*\1)'),
     X.Rule('Policy::error(error_type(e))', r'Policy::error\(error_type\((\w+)\)\)\s*;', r'policy_error_unknown_class(&\1);'),
     X.Rule('abort()', r'\babort\(\)\s*;', 'yv_abort();'),
     X.Rule('reinterpret_cast<uintptr_t>', r'\breinterpret_cast<\s*(?:std::)?uintptr_t\s*>\(', '(uintptr_t)('),
@@ -176,7 +220,12 @@ def extract():
     bad = re.findall(r'[^\n]*(?:\bauto\b|std::|Policy::|\.begin\(|\.end\(|reinterpret_cast)[^\n]*', left)
     if bad:
         raise X.ExtractionBroken('augment_methods: untranslated C++ left: %s' % bad[:3])
-    return ex, TEXT.replace('@BODY@', ex.body)
+    lifted = ''
+    mm = re.search(r'YV_LIFT_BEGIN(.*?)YV_LIFT_END', ex.body, re.S)
+    if mm:
+        lifted = mm.group(1)
+        ex.body = ex.body[:mm.start()] + ex.body[mm.end():]
+    return ex, TEXT.replace('@LIFTED@', lifted).replace('@BODY@', ex.body)
 
 
 CONFIGS = {
@@ -191,6 +240,44 @@ CONFIGS = {
     'unknown-definition-parameter': (3, [((1, 2), [(1, 2), (3, 5)])], 5),
     'unknown-definition-parameter-of-second-method': (2, [((1,), [(2,)]), ((2,), [(2,), (6,)])], 6),
 }
+
+
+def registry_program(ncls, meths, unknown):
+    """Real registry with one unregistered class U at the place the configuration names; the handler must be called once with
+    unknown_class_error carrying U's id and update must not complete."""
+    def cname(i):
+        return 'U' if i == unknown else 'C%d' % i
+    L = ['#include <yorel/yomm2/keywords.hpp>', '#include <iostream>', 'using namespace yorel::yomm2;']
+    # one chain C1 <- C2 <- ... <- Cn <- U so that definitions on any later class compile; definitions that would not are left out
+    for i in range(1, ncls + 1):
+        L.append('struct C%d%s { virtual ~C%d() {} };' % (i, ' : C%d' % (i - 1) if i > 1 else '', i))
+    L.append('struct U : C%d {};   // never registered' % ncls)
+
+    def rank(i):
+        return ncls + 1 if i == unknown else i
+    L.append('register_classes(%s);' % ', '.join('C%d' % i for i in range(1, ncls + 1)))
+    for mi, (vp, ds) in enumerate(meths):
+        L.append('declare_method(int, m%d, (%s));' % (mi, ', '.join('virtual_<%s&>' % cname(i) for i in vp)))
+        for d in ds:
+            if any(rank(d[k]) < rank(vp[k]) for k in range(len(vp))):
+                continue
+            L.append('define_method(int, m%d, (%s)) { return 0; }' % (mi, ', '.join('%s&' % cname(i) for i in d)))
+    L.append('struct stop {};')
+    L.append('int main() { int reports = 0; bool right_id = false;')
+    L.append('  default_policy::error = [&](const error_type& ev) { if (auto e = std::get_if<unknown_class_error>(&ev)) { ++reports; right_id = e->type == (type_id)&typeid(U); throw stop(); } };')
+    L.append('  bool completed = false; try { update(); completed = true; } catch (const stop&) {}')
+    L.append('  if (completed || reports != 1 || !right_id) { std::cout << "update completed=" << completed << " unknown_class_error reports=" << reports << " with U\'s id=" << right_id << "\\nREPRODUCED on real code\\n"; }')
+    L.append('  else std::cout << "real library reports the unregistered class and does not complete update\\n"; return 0; }')
+    return '\n'.join(L) + '\n'
+
+
+def replay(job, res, ob):
+    ncls, meths, unknown = job.cfg
+    if not unknown or any(i > 16 for vp, ds in meths for i in list(vp) + [x for d in ds for x in d]):
+        return {'reproduced': None, 'detail': 'no replay for this configuration', 'input': None}
+    from engine import replay as R
+    return R.run_generated_program('methods_replay', registry_program(ncls, meths, unknown),
+                                   {'registered classes': ncls, 'methods (parameter class ids, definitions)': [[list(vp), [list(d) for d in ds]] for vp, ds in meths], 'unregistered id': unknown})
 
 
 def jobs(tier):
@@ -213,6 +300,7 @@ def jobs(tier):
                        trusted=['std::unordered_map<type_index, class_*> as an array indexed by small keys; static_list of method_info / definition_info as arrays in catalog order',
                                 'std::vector resize / push_back / begin; detail::range{first, last} as a pointer pair'],
                        assumptions=['ids are small integers; Policy::type_index as id & 15'],
-                       extracted=[ex], props=['C15', 'C10', 'C04', 'C01'], timeout=300))
+                       extracted=[ex], props=['C15', 'C10', 'C04', 'C01'], timeout=300, replay=replay))
         out[-1].no_cross = True
+        out[-1].cfg = (ncls, meths, unknown)
     return out
